@@ -486,8 +486,9 @@ def wildcard_statements(conn, thorough):
 
 
 def _hashable(table):
-    import collections.abc
-    return all(issubclass(c.dtype, collections.abc.Hashable) for n, c in table.columns.items() if n in list(table.wildcard_columns))
+    """DISTINCT needs hashable rows; directive-valued columns (accounts.open holds a dict) are not, although
+    their declared type is (TypeError from uniquify: C05's business) -> DISTINCT only on harness tables."""
+    return isinstance(table, HTable)
 
 
 def table_kind_statements(conn):
